@@ -264,7 +264,8 @@ Next ==
   /\ l' = l + 1
   /\ CASE Trace[l].e = "reset" -> Reset
        \* a crash, failed assertion or uncaught exception inside the library is never a behaviour of the network
-       [] Trace[l].e = "abort" -> Chk({"C07", "C08", "C09", "C10", "C11", "C12", "C13", "C14", "C18", "C20"}, "NoAbort", FALSE) /\ UNCHANGED <<n, models, decs, atoms, thOK, defs, lraVis, ovs, seen, last>>
+       \* (a line that is not a well-formed event - written by a driver whose memory the library corrupted - likewise)
+       [] Trace[l].e \in {"abort", "garbage"} -> Chk({"C07", "C08", "C09", "C10", "C11", "C12", "C13", "C14", "C18", "C20"}, "NoAbort", FALSE) /\ UNCHANGED <<n, models, decs, atoms, thOK, defs, lraVis, ovs, seen, last>>
        [] OTHER -> Step(Trace[l])
 
 Spec == Init /\ [][Next]_vars
